@@ -712,7 +712,10 @@ def lattice_3d(cx):
                 if Ls[fw[0]] >= 2:
                     rg = (0, 1) if fw.endswith("min") else (Ls[fw[0]] - 2, Ls[fw[0]] - 1)
                     for capped, inplace in itertools.product((False, True), (True, False)):
-                        p = dict(base, mode=mode, from_which=fw, cap=cap if capped else None, inplace=inplace)
+                        if (cx.quick or big) and rng.random() < 0.5:
+                            continue
+                        p = dict(base, mode=mode, from_which=fw, cap=cap if capped else None, inplace=inplace,
+                                 full_range=Ls[fw[0]] == 2)
 
                         def t_step(mode=mode, fw=fw, rg=rg, cap=cap, capped=capped, inplace=inplace):
                             ranges = dict(xrange=(0, Lx - 1), yrange=(0, Ly - 1), zrange=(0, Lz - 1))
@@ -790,3 +793,326 @@ def lattice_3d(cx):
                         return cmp_value(value_of(r), ex, tol, "value of the coarse-grained network")
 
                     cx.check("coarse_grain_hotrg (3D): keeps the value when untruncated, obeys the cap", p, t_cg)
+
+
+# ----------------------------------------------------------------------------------------------
+# arbitrary geometry
+# ----------------------------------------------------------------------------------------------
+
+COMPRESS_MODES = ["auto", "basic", "virtual-tree", "full-bond", "local-fit"]
+AG_METHODS = ["local-early", "local-late", "projector", "su", "superorthogonal", "l2bp"]
+
+
+def random_graph_edges(rng, n, kind):
+    """edge list of a random connected graph on n nodes: 'tree', 'regular' (3-regular when possible) or 'sparse'"""
+    edges = set()
+    if kind == "regular" and n >= 4 and n % 2 == 0:
+        for _ in range(200):
+            stubs = [v for v in range(n) for _ in range(3)]
+            perm = [stubs[int(x)] for x in rng.permutation(len(stubs))]
+            es = {tuple(sorted(perm[k:k + 2])) for k in range(0, len(perm), 2)}
+            if len(es) == 3 * n // 2 and all(a != b for a, b in es):
+                adj = {v: set() for v in range(n)}
+                for a, b in es:
+                    adj[a].add(b)
+                    adj[b].add(a)
+                seen, todo = {0}, [0]
+                while todo:
+                    for w in adj[todo.pop()]:
+                        if w not in seen:
+                            seen.add(w)
+                            todo.append(w)
+                if len(seen) == n:
+                    return sorted(es)
+    for i in range(1, n):
+        edges.add((int(rng.integers(0, i)), i))
+    if kind != "tree":
+        cand = [(i, j) for i in range(n) for j in range(i + 1, n) if (i, j) not in edges]
+        for e in rng.permutation(len(cand))[: max(1, n // 2)]:
+            edges.add(cand[int(e)])
+    return sorted(edges)
+
+
+def make_graph_tn(rng, edges, n, D, dtype, phys=None):
+    """scalar network (phys=None) or vector network with one dangling index of size phys per node"""
+    import quimb.tensor as qtn
+
+    inds = {i: [] for i in range(n)}
+    shapes = {i: [] for i in range(n)}
+    for k, (i, j) in enumerate(edges):
+        d = D if isinstance(D, int) else int(rng.integers(D[0], D[1] + 1))
+        for s in (i, j):
+            inds[s].append(f"_e{k}")
+            shapes[s].append(d)
+    ts = []
+    for i in range(n):
+        ii, sh = list(inds[i]), list(shapes[i])
+        if phys:
+            ii.append(f"k{i}")
+            sh.append(phys)
+        x = rng.normal(size=sh)
+        if "complex" in dtype:
+            x = x + 1j * rng.normal(size=sh)
+        ts.append(qtn.Tensor(x.astype(dtype), inds=ii, tags=[f"I{i}"]))
+    return qtn.TensorNetwork(ts)
+
+
+def explicit_paths(rng, n, edges):
+    """two explicit contraction paths (linear format): random order along edges, and a chain order"""
+    paths = []
+    # chain: always contract the first two remaining
+    paths.append(("chain", [(0, 1)] * (n - 1)))
+    # random pairwise order
+    ids = list(range(n))
+    p = []
+    while len(ids) > 1:
+        a, b = sorted(int(x) for x in rng.permutation(len(ids))[:2])
+        p.append((a, b))
+        ids.pop(b)
+        ids.pop(a)
+        ids.append(-1)
+    paths.append(("random", p))
+    return paths
+
+
+@driver("C12", "arbitrary-geometry-compressed-contraction", chunks=3, timeout=300,
+        bound="contract_compressed (optimizers greedy / greedy-compressed / greedy-span / auto / explicit linear paths: chain and "
+              "random pairwise order; 5 compress modes; compress_late, tree_gauge_distance, canonize distances, compress_span, "
+              "compress_matrices, compress_min_size, strip_exponent / equalize_norms, simple-update gauges, output_inds on vector "
+              "networks, callbacks), contract_around / contract_around_center / contract_around_corner, compress_all (5 modes) / "
+              "compress_all_tree / compress_all_1d / compress_all_simple and tensor_network_ag_compress (6 methods) on random "
+              "trees, 3-regular and sparse graphs with 2..8 tensors, bonds 2..3 (mixed), 4 dtypes, stored exponents. untruncated "
+              "(max_bond=4096, cutoff=0): value / dense tensor unchanged (1e-8 double / 2e-3 single, x100 for gauged / fitted "
+              "variants); capped: every compressed pair (post-compress callback) and every bond of the result <= cap")
+def arbitrary_geometry(cx):
+    quiet_env()
+    rng = cx.rng
+    expos = ["none", "attr", "equalize"]
+    if cx.quick:
+        geos = [(2, "tree"), (3, "sparse"), (5, "tree"), (6, "regular"), (7, "sparse"), (8, "regular"), (8, "tree")]
+    else:
+        geos = [(1, "tree"), (2, "tree"), (3, "tree"), (3, "sparse"), (4, "regular"), (4, "tree"), (5, "sparse"), (5, "tree"),
+                (6, "regular"), (6, "sparse"), (7, "tree"), (7, "sparse"), (8, "regular"), (8, "sparse"), (8, "tree")]
+    reps = 1 if cx.quick else 2
+    for (gi, (n, gk)), rep in itertools.product(enumerate(geos), range(reps)):
+        for di, dtype in enumerate(DTYPES):
+            if di >= 2 and cx.quick and (gi + di) % 2:
+                continue
+            how = expos[(gi + di + rep) % 3]
+            if not cx.mine():
+                continue
+            if cx.out_of_time():
+                cx.inconclusive.append("arbitrary-geometry-compressed-contraction: time budget exhausted")
+                return
+            edges = random_graph_edges(rng, n, gk) if n > 1 else []
+            D = [2, 3, (2, 3)][int(rng.integers(3))]
+            Dmax = D if isinstance(D, int) else D[1]
+            tn = make_graph_tn(rng, edges, n, D, dtype)
+            set_exponent(tn, rng, how, dtype)
+            ex = value_of(tn)
+            before = tn.copy()
+            base = dict(n=n, graph=gk, D=D if isinstance(D, int) else list(D), dtype=dtype, exponent=how != "none", expo=how, rep=rep)
+            tol = tol_of(dtype)
+            _ag_scalar(cx, rng, tn, before, ex, edges, n, Dmax, base, tol, dtype)
+            _ag_vector(cx, rng, edges, n, D, Dmax, base, tol, dtype, how)
+
+
+def _ag_scalar(cx, rng, tn, before, ex, edges, n, Dmax, base, tol, dtype):
+    optimizers = ["greedy", "greedy-compressed", "greedy-span", "auto"]
+    paths = explicit_paths(rng, n, edges) if n >= 2 else []
+    trees = [(o, o) for o in optimizers] + [("path-" + nm, tuple(p)) for nm, p in paths]
+    for (tname, opt), cm in itertools.product(trees, COMPRESS_MODES):
+        if cx.quick and rng.random() < 0.5:
+            continue
+        extra = [dict(), dict(compress_late=True), dict(compress_late=False), dict(tree_gauge_distance=0), dict(tree_gauge_distance=3),
+                 dict(canonize_distance=2, canonize_after_distance=1), dict(compress_span=2), dict(compress_matrices=False),
+                 dict(compress_min_size=50), dict(strip_exponent=True), dict(equalize_norms=True), dict(equalize_norms=1.0),
+                 dict(gauge_boundary_only=False), dict(preserve_tensor=True), dict(inplace=True)][int(rng.integers(15))]
+        p = dict(base, tree=tname, compress_mode=cm, **extra)
+
+        def t_cc(opt=opt, cm=cm, extra=extra):
+            t0 = tn.copy()
+            r = t0.contract_compressed(opt, max_bond=CHI, cutoff=0.0, compress_mode=cm, **extra)
+            e = cmp_value(as_value(r), ex, tol * (100 if cm == "local-fit" else 1))
+            if e:
+                return e
+            if not extra.get("inplace") and not tensors_equal(t0, before):
+                return "inplace=False modified the network"
+
+        cx.check("contract_compressed along the given tree with max_bond >= exact bond and cutoff=0 == exact contraction", p, t_cc)
+        if n < 3:
+            continue
+        cap = int(rng.integers(2, Dmax * Dmax)) if Dmax > 1 else 1
+        p2 = dict(base, tree=tname, compress_mode=cm, cap=cap)
+
+        def t_cap(opt=opt, cm=cm, cap=cap):
+            worst = [0, 0, 0]
+
+            def post(tnx, tids):
+                t1, t2 = (tnx.tensor_map[t] for t in tids)
+                worst[0] = max(worst[0], pair_bond(tnx, t1, t2))
+                worst[1] += 1
+
+            def step(tnx, tid):
+                worst[2] += 1
+
+            tn.contract_compressed(opt, max_bond=cap, cutoff=0.0, compress_mode=cm, callback_post_compress=post, callback=step)
+            if worst[0] > cap:
+                return f"after a compression the pair is joined by a bond of size {worst[0]} > cap {cap}"
+            if worst[2] == 0:
+                return "the per-step callback was never called"
+
+        cx.check("contract_compressed with a small cap: every pair is within the cap right after its compression (callback)", p2, t_cap)
+    # simple-update gauges supplied
+    if n >= 2:
+        for cm in ("auto", "basic"):
+            def t_g(cm=cm):
+                t0 = tn.copy()
+                g = {}
+                t0.gauge_all_simple_(5, gauges=g)
+                ref = complex(contract_dense(raw_ops(t0) + [(np.asarray(v).astype(np.complex128), [ix]) for ix, v in g.items()], [])) \
+                    * 10.0 ** float(t0.exponent)
+                r = t0.contract_compressed("greedy", max_bond=CHI, cutoff=0.0, compress_mode=cm, gauges=g)
+                return cmp_value(as_value(r), ref, tol * 100)
+
+            cx.check("contract_compressed with simple-update gauges (untruncated) == exact value of tensors x gauges", dict(base, compress_mode=cm), t_g)
+    # contract_around*
+    tags = [f"I{int(x)}" for x in rng.permutation(n)[:2]]
+    for which, fn in (("around", None), ("center", "contract_around_center"), ("corner", "contract_around_corner")):
+        for kw in (dict(), dict(equalize_norms=True), dict(compress_late=False), dict(canonize_distance=2), dict(compress_span=True)):
+            if cx.quick and rng.random() < 0.4:
+                continue
+            p = dict(base, which=which, **kw)
+
+            def t_ar(which=which, fn=fn, kw=kw):
+                if which == "around":
+                    r = tn.contract_around(tags[:1], max_bond=CHI, cutoff=0.0, **kw)
+                else:
+                    r = getattr(tn, fn)(max_bond=CHI, cutoff=0.0, **kw)
+                if not tensors_equal(tn, before):
+                    return "the non in-place call modified the network"
+                return cmp_value(as_value(r), ex, tol)
+
+            cx.check("contract_around / contract_around_center / contract_around_corner (untruncated) keep the value", p, t_ar)
+        if n >= 3:
+            cap = int(rng.integers(2, Dmax * Dmax)) if Dmax > 1 else 1
+            md = int(rng.integers(1, 3))
+
+            def t_arc(which=which, fn=fn, cap=cap, md=md):
+                worst = [0]
+
+                def post(tnx, tids):
+                    t1, t2 = (tnx.tensor_map[t] for t in tids)
+                    worst[0] = max(worst[0], pair_bond(tnx, t1, t2))
+
+                if which == "around":
+                    r = tn.contract_around(tags[:1], max_bond=cap, cutoff=0.0, min_distance=md, callback_post_compress=post)
+                else:
+                    r = getattr(tn, fn)(max_bond=cap, cutoff=0.0, min_distance=md, callback_post_compress=post)
+                if worst[0] > cap:
+                    return f"after a compression the pair is joined by a bond of size {worst[0]} > cap {cap}"
+                del r
+
+            cx.check("contract_around* with a small cap: every pair is within the cap right after its compression (callback)",
+                     dict(base, which=which, cap=cap, min_distance=md), t_arc)
+
+
+def _ag_vector(cx, rng, edges, n, D, Dmax, base, tol, dtype, how):
+    """networks with dangling indices: the dense tensor must be unchanged by untruncated compression"""
+    tn = make_graph_tn(rng, edges, n, D, dtype, phys=2)
+    set_exponent(tn, rng, how, dtype)
+    outer = [f"k{i}" for i in range(n)]
+    ref = dense_of(tn, outer)
+    sc = float(np.linalg.norm(ref)) + 1e-300
+    before = tn.copy()
+    is_tree = len(edges) == n - 1
+
+    def same(r, loose=1.0, what="dense tensor"):
+        got = dense_of(r, outer)
+        if got.shape != ref.shape:
+            return f"{what}: shape {got.shape} != {ref.shape}"
+        d = float(np.linalg.norm(got - ref))
+        if not d <= tol * loose * sc:
+            return f"{what}: changed by {d / sc:.2e} (relative)"
+        return None
+
+    for cm in COMPRESS_MODES:
+        for kw in (dict(), dict(canonize=False), dict(tree_gauge_distance=2), dict(canonize_distance=1, canonize_after_distance=1)):
+            if cx.quick and rng.random() < 0.5:
+                continue
+            inplace = bool(rng.integers(2))
+            p = dict(base, mode=cm, inplace=inplace, **kw)
+
+            def t_ca(cm=cm, kw=kw, inplace=inplace):
+                t0 = tn.copy()
+                r = t0.compress_all(max_bond=CHI, cutoff=0.0, mode=cm, inplace=inplace, **kw)
+                if inplace and r is not t0:
+                    return "inplace=True returned another object"
+                if not inplace and not tensors_equal(t0, before):
+                    return "inplace=False modified the network"
+                return same(r, 100 if cm == "local-fit" else 1)
+
+            cx.check("compress_all (untruncated) leaves the dense tensor unchanged", p, t_ca)
+        if n >= 2:
+            cap = int(rng.integers(1, Dmax)) if Dmax > 1 else 1
+
+            def t_cac(cm=cm, cap=cap):
+                r = tn.compress_all(max_bond=cap, cutoff=0.0, mode=cm)
+                m = max_pair_bond(r)
+                if m > cap:
+                    return f"a pair of tensors is joined by a bond of size {m} > cap {cap}"
+
+            cx.check("compress_all with a cap below the bond dimension: every bond <= cap", dict(base, mode=cm, cap=cap), t_cac)
+    for name in ("compress_all_tree", "compress_all_1d", "compress_all_simple"):
+        if name == "compress_all_tree" and not is_tree:
+            continue
+        if name == "compress_all_1d" and not (is_tree and n <= 8):
+            continue
+        for capped in (False, True):
+            cap = int(rng.integers(1, Dmax)) if Dmax > 1 else 1
+            if capped and n < 2:
+                continue
+            p = dict(base, fn=name, cap=cap if capped else None)
+
+            def t_cx(name=name, capped=capped, cap=cap):
+                r = getattr(tn, name)(max_bond=cap if capped else CHI, cutoff=0.0)
+                if not tensors_equal(tn, before):
+                    return "the non in-place call modified the network"
+                if capped:
+                    m = max_pair_bond(r)
+                    return f"a pair of tensors is joined by a bond of size {m} > cap {cap}" if m > cap else None
+                return same(r, 100 if name == "compress_all_simple" else 1)
+
+            cx.check("compress_all_tree / compress_all_1d / compress_all_simple: untruncated keeps the dense tensor, capped obeys the cap",
+                     p, t_cx)
+    # tensor_network_ag_compress: a two-layer network (sum over shared site tags) into one tensor per site
+    if n >= 2:
+        from quimb.tensor.tnag.compress import tensor_network_ag_compress
+
+        b = make_graph_tn(rng, edges, n, 2, dtype, phys=2).reindex({f"k{i}": f"b{i}" for i in range(n)})
+        for k, t in enumerate(b.tensors):  # distinct bond names in the second layer
+            t.reindex_({ix: ix + "'" for ix in t.inds if ix.startswith("_e")})
+        ab = tn.copy() | b
+        outer2 = outer + [f"b{i}" for i in range(n)]
+        ref2 = dense_of(ab, outer2)
+        sc2 = float(np.linalg.norm(ref2)) + 1e-300
+        site_tags = [f"I{i}" for i in range(n)]
+        for method, capped in itertools.product(AG_METHODS, (False, True)):
+            cap = int(rng.integers(2, 2 * Dmax)) if Dmax > 1 else 1
+            kw = [dict(), dict(canonize=False), dict(equalize_norms=True)][int(rng.integers(3))]
+            p = dict(base, method=method, cap=cap if capped else None, **kw)
+
+            def t_ag(method=method, capped=capped, cap=cap, kw=kw):
+                r = tensor_network_ag_compress(ab, max_bond=cap if capped else CHI, cutoff=0.0, method=method, site_tags=site_tags, **kw)
+                if r.num_tensors != n:
+                    return f"{r.num_tensors} tensors returned, expected one per site ({n})"
+                if capped:
+                    m = max_pair_bond(r)
+                    return f"a pair of sites is joined by a bond of size {m} > cap {cap}" if m > cap else None
+                got = dense_of(r, outer2)
+                d = float(np.linalg.norm(got - ref2))
+                loose = 1000 if method in ("su", "superorthogonal", "l2bp") else 10
+                if not d <= tol * loose * sc2:
+                    return f"dense tensor changed by {d / sc2:.2e} (relative)"
+
+            cx.check("tensor_network_ag_compress: one tensor per site, untruncated keeps the dense tensor, capped obeys the cap", p, t_ag)
